@@ -78,10 +78,12 @@ def handleRange (st : St) (op : String) (j : Json) : Option (D (St × Json)) :=
       | .error .raises => "raises"
       | .error .outOfFuel => "outOfFuel"
       | .error .negInsert => "negInsert"
-    -- the hypotheses of `delete_total` (Props/C11.lean), evaluated for requests with an empty slice only
-    let hyp : Json := if sl.content.isEmpty && sl.openStart == 0 && sl.openEnd == 0 then
+    -- the hypotheses of `delete_total` / `insertInline_total` (Props/C11.lean), evaluated for requests with a closed
+    -- slice of leaf nodes only (the empty slice is one)
+    let hyp : Json := if sl.inlineLeaves S then
         Json.mkObj [("fillers", Json.bool S.fillersOKB), ("valid", Json.bool (S.checkNode d)),
-          ("attrs", Json.bool (S.nodeAttrsOK d)), ("topTextblock", Json.bool (S.isTextblockO (S.tyOf d)))]
+          ("attrs", Json.bool (S.nodeAttrsOK d)), ("topTextblock", Json.bool (S.isTextblockO (S.tyOf d))),
+          ("wrapOK", Json.bool S.wrapOKB), ("empty", Json.bool sl.content.isEmpty)]
       else Json.null
     return (st, ok (Json.mkObj [("partial", Json.bool (!sl.noPartialNode S)), ("term", Json.bool sl.termGuard),
       ("wf", Json.bool sl.wf), ("det", Json.bool (PM.FromDom.detB S)), ("model", Json.str outcome), ("hyp", hyp)]))
